@@ -101,6 +101,12 @@ def _run0(ck, fb):
     for v in variants:
         for fn in FNS:
             got = forms[fn].get(v, [])
+            lead = forms[FNS[0]].get(v, [])
+            if fn == 'load_log' and not got and len(lead) == 1 and str(lead[0][0]).endswith('RaftIndexManager'):
+                # the effect of this variant is a write of the catalogue (index file), which is its own durable store: the start-up replay
+                # restores the memory of the actors, and re-saving old catalogue values would take the file back through its history (R05n)
+                ck.ok('R07a', '%s:%s' % (fn, v), bodies[fn].where(), 'catalogue write (%s): not replayed' % lead[0][2])
+                continue
             ck.require(len(got) >= 1, 'R07a', '%s:%s' % (fn, v), bodies[fn].where(),
                        '%s has %d sends for ClientRequest::%s (expected exactly one)' % (fn, len(got), v), 'one send')
         ref = forms[FNS[0]].get(v, [])
